@@ -1,0 +1,95 @@
+//go:build verif
+
+package typematch
+
+// Verification hooks (build tag `verif`): add-only, not part of the API.
+
+import (
+	"fmt"
+	"go/types"
+	"strings"
+)
+
+// VerifPatternTree dumps the parsed pattern as an S-expression. encType renders
+// the types.Type payload of opBuiltinType nodes.
+func VerifPatternTree(p *Pattern, encType func(types.Type) string) string {
+	var sb strings.Builder
+	verifDump(&sb, p.root, encType)
+	return sb.String()
+}
+
+func verifDumpList(sb *strings.Builder, subs []*pattern, encType func(types.Type) string) {
+	for i, s := range subs {
+		if i > 0 {
+			sb.WriteByte(' ')
+		}
+		verifDump(sb, s, encType)
+	}
+}
+
+func verifDump(sb *strings.Builder, p *pattern, encType func(types.Type) string) {
+	switch p.op {
+	case opBuiltinType:
+		fmt.Fprintf(sb, "(builtin %s)", encType(p.value.(types.Type)))
+	case opPointer:
+		sb.WriteString("(ptr ")
+		verifDump(sb, p.subs[0], encType)
+		sb.WriteByte(')')
+	case opVar:
+		fmt.Fprintf(sb, "(var n:%s)", p.value.(string))
+	case opVarSeq:
+		sb.WriteString("varseq")
+	case opSlice:
+		sb.WriteString("(slice ")
+		verifDump(sb, p.subs[0], encType)
+		sb.WriteByte(')')
+	case opArray:
+		switch v := p.value.(type) {
+		case string:
+			fmt.Fprintf(sb, "(arrayvar n:%s ", v)
+		case int64:
+			fmt.Fprintf(sb, "(arraylit %d ", v)
+		default:
+			fmt.Fprintf(sb, "(arraybad ")
+		}
+		verifDump(sb, p.subs[0], encType)
+		sb.WriteByte(')')
+	case opMap:
+		sb.WriteString("(map ")
+		verifDumpList(sb, p.subs, encType)
+		sb.WriteByte(')')
+	case opChan:
+		fmt.Fprintf(sb, "(chan %d ", int(p.value.(types.ChanDir)))
+		verifDump(sb, p.subs[0], encType)
+		sb.WriteByte(')')
+	case opFuncNoSeq, opFunc:
+		name := "funcnoseq"
+		if p.op == opFunc {
+			name = "func"
+		}
+		n := p.value.(int)
+		fmt.Fprintf(sb, "(%s (", name)
+		verifDumpList(sb, p.subs[:n], encType)
+		sb.WriteString(") (")
+		verifDumpList(sb, p.subs[n:], encType)
+		sb.WriteString("))")
+	case opStructNoSeq, opStruct:
+		name := "structnoseq"
+		if p.op == opStruct {
+			name = "struct"
+		}
+		fmt.Fprintf(sb, "(%s", name)
+		if len(p.subs) > 0 {
+			sb.WriteByte(' ')
+		}
+		verifDumpList(sb, p.subs, encType)
+		sb.WriteByte(')')
+	case opAnyInterface:
+		sb.WriteString("anyiface")
+	case opNamed:
+		v := p.value.([2]string)
+		fmt.Fprintf(sb, "(named p:%s n:%s)", v[0], v[1])
+	default:
+		fmt.Fprintf(sb, "(badop %d)", int(p.op))
+	}
+}
